@@ -25,6 +25,10 @@ EXPLANATION = (
     "liveness (announced idle, undisturbed for idle_timeout => released exactly then, handler marked idle), reload exactly once, state after "
     "release / reload, lock sections, final result equals the run without idle release."
 )
+LEVEL_TEXT = ("proof (Lean 4) over the lifecycle model M7 (release after the timeout, reload on send, lock discipline; DBOS release/resume "
+              "given the lifecycle row) + per-action correspondence with the real in-process server stack + monitors; PARTIAL for the DBOS "
+              "half: dbos/asyncpg/sqlalchemy are absent (stand-in inner runtime, PostgreSQL lock extracted, not run); the DBOS clause itself is "
+              "refuted on the tree (no lifecycle row is ever created)")
 ASSUMPTIONS = LP.COMMON_ASSUMPTIONS + [
     "C36_release_after_timeout(b) runs the pending release task from a state with the lock free and no send in between; fairness of the asyncio scheduler "
     "(the timer task eventually runs) is not modelled — the monitor checks on the real stack that the release happens at exactly announcement + idle_timeout",
@@ -75,7 +79,7 @@ def run(env: Env) -> Outcome:
                 "memory/sqlite store, 1/3 with scheduler-controlled store suspension, 1/4 with work longer than idle_timeout and retries); "
                 "non-trivial = at least one release and one reload; distinct by (case, schedule)")
     LP.run_malformed(out)
-    LP.run_inprocess(env, out, "C36", env.budget(30, 600), WITNESSES)
-    LP.run_row_corr(env, out, env.budget(200, 4000), "C36")
+    LP.run_inprocess(env, out, "C36", env.budget(30, 2400), WITNESSES)
+    LP.run_row_corr(env, out, env.budget(200, 20000), "C36")
     _dbos_never_released(out)
     return out
